@@ -319,19 +319,66 @@ type AuthScenario struct {
 	Label   string
 }
 
-// caseVariant returns the content key under another letter case now and then: encoding/json matches struct fields
-// case-insensitively, so every reader of a member content (the auth check, StateNeededForAuth, the signature
-// requirements) has to see the same value under `Membership`, `Join_authorised_via_users_server`, `Third_party_invite`.
+// caseVariant returns the content key under another spelling now and then (Capitalised, UPPER, U+017F for an s, one
+// other letter raised): encoding/json would match such a member with the struct field, but member names are exact —
+// every reader of a member content (the auth check, StateNeededForAuth, Membership(), the signature requirements,
+// state resolution) has to ignore `Membership`, `Join_authorised_via_users_server`, `Third_party_invite`, `Mxid_mapping`.
 func (r *Rng) caseVariant(key string) string { return r.caseVariantP(key, 4) }
 
 func (r *Rng) caseVariantP(key string, pct int) string {
 	if !r.Chance(pct) {
 		return key
 	}
-	if r.Chance(50) {
+	return r.otherSpelling(key)
+}
+
+// otherSpelling: a spelling of key that differs from it and folds to it.  As keys of a Go map the variants are
+// marshalled in byte order: the ones with an upper-case letter BEFORE the exact key, the U+017F one AFTER it.
+func (r *Rng) otherSpelling(key string) string {
+	switch r.Intn(4) {
+	case 0:
 		return strings.ToUpper(key[:1]) + key[1:]
+	case 1:
+		return strings.ToUpper(key)
+	case 2:
+		if i := strings.LastIndex(key, "s"); i >= 0 {
+			return key[:i] + "ſ" + key[i+1:]
+		}
 	}
-	return strings.ToUpper(key)
+	return key[:len(key)-1] + strings.ToUpper(key[len(key)-1:])
+}
+
+// variantBeside adds, next to members of c with an exact member-content name, a member under another spelling of that
+// name with a DIFFERENT value (what a folded reader would take instead of / in place of the exact member).
+func (r *Rng) variantBeside(c map[string]interface{}, pct int) bool {
+	added := false
+	for _, key := range []string{"membership", "join_authorised_via_users_server", "third_party_invite", "mxid_mapping"} {
+		cur, ok := c[key]
+		if !ok || !r.Chance(pct) {
+			continue
+		}
+		var other interface{}
+		switch key {
+		case "membership":
+			other = Pick(r, memberships)
+			if other == cur {
+				other = "leave"
+				if cur == "leave" {
+					other = "join"
+				}
+			}
+			if r.Chance(10) {
+				other = 5 // ill-typed under the other spelling: no error for a reader of exact names
+			}
+		case "join_authorised_via_users_server":
+			other = Pick(r, append([]string{"", "@ghost:hs1"}, authUsers...))
+		default:
+			other = Pick(r, []interface{}{5, nil, map[string]interface{}{}})
+		}
+		c[r.otherSpelling(key)] = other
+		added = true
+	}
+	return added
 }
 
 func (r *Rng) memberContent(membership string) map[string]interface{} {
@@ -452,6 +499,7 @@ func genAuthScenario(r *Rng, ver string) *AuthScenario {
 			newM = Pick(r, []string{"", "JOIN", "kick"})
 		}
 		c := r.memberContent(newM)
+		besideExact := false // set below: a case variant of a member name next to the exact name
 		if r.Chance(10) && len(c) == 1 {
 			// the event under test spells `membership` in another letter case (StateNeededForAuth must read what the check reads)
 			c = map[string]interface{}{r.caseVariantP("membership", 100): newM}
@@ -460,7 +508,7 @@ func genAuthScenario(r *Rng, ver string) *AuthScenario {
 			c[r.caseVariant("join_authorised_via_users_server")] = Pick(r, append([]string{"", "notauser", "@ghost:hs1"}, authUsers...))
 		}
 		if r.Chance(2) {
-			for k := range c { // (one spelling of the key only: two members that fold to one field are outside the JSON glue model)
+			for k := range c {
 				if strings.EqualFold(k, "membership") {
 					delete(c, k)
 				}
@@ -518,8 +566,15 @@ func genAuthScenario(r *Rng, ver string) *AuthScenario {
 			}
 			s.Sig3pid = valid && include
 		}
+		if r.Chance(8) {
+			// another spelling of a member name NEXT TO the exact one, with another value: readers take the exact member
+			besideExact = r.variantBeside(c, 70)
+		}
 		s.Event = g.Mk(spec.MRoomMember, sender, sp(target), content, prev, nil, nil)
 		s.Label = "member"
+		if besideExact {
+			s.Label = "member+variant-beside-exact"
+		}
 	case k < 62: // power levels
 		base := oldPL
 		if base == nil {
